@@ -53,6 +53,23 @@ def make_exc(kind: str, tag: Any) -> BaseException:
 # ------------------------------------------------------------------------------------
 
 
+def _simple_spec(d: D, ids: list[int], depth: int) -> dict:
+    """A cheap callback (for contexts with dozens of them)."""
+    sid = ids[0]
+    ids[0] += 1
+    route = d.weighted([("ctx", 50), ("module", 25), ("resource", 25)])
+    kind = d.weighted([("sync", 70), ("async", 30)])
+    s: dict[str, Any] = {"id": sid, "route": route, "kind": kind}
+    if kind != "sync":
+        s["cps"], s["sleep"] = d.int(0, 1), 0
+    if route in ("ctx", "module"):
+        s["pass_exc"] = d.pct(30)
+    if d.pct(6):
+        s["raises"] = EXCS[0]
+        s["raise_when"] = "before"
+    return s
+
+
 def _spec(d: D, ids: list[int], depth: int, tier: str) -> dict:
     sid = ids[0]
     ids[0] += 1
@@ -90,12 +107,29 @@ def cases(draw: Any, tier: str) -> dict:
     ids = [0]
     n = d.int(0, 8 if tier == "quick" else 14)
     items: list[dict] = []
+    large = d.pct(4)
+    if large and d.bool():
+        # dozens of callbacks on one context ("every teardown callback", not "every one of the first few")
+        for _ in range(d.pick([17, 20, 33, 40, 70])):
+            items.append({"reg": _simple_spec(d, ids, 0)})
+        items.insert(d.int(0, len(items)), {"cp": 1})
+        n = 0
+    elif large:
+        # one callback registers dozens of further ones while the context is being torn down
+        for _ in range(d.int(1, 3)):
+            items.append({"reg": _simple_spec(d, ids, 0)})
+        host = _simple_spec(d, ids, 0)
+        host["route"], host["kind"] = "ctx", "sync"
+        host.pop("raises", None)
+        host["nested"] = [dict(_simple_spec(d, ids, 1), route=d.pick(["ctx", "module", "resource"])) for _ in range(d.pick([33, 40, 64]))]
+        items.insert(d.int(0, len(items)), {"reg": host})
+        n = 0
     for _ in range(n):
         if d.pct(25):
             items.append({"cp": d.int(1, 2)})
         items.append({"reg": _spec(d, ids, 0, tier)})
     tail = d.int(0, 2)
-    ek = d.weighted([("return", 40), ("raise", 35), ("cancel", 25)])
+    ek = d.weighted([("return", 40), ("raise", 35), ("cancel", 25)]) if not large else d.weighted([("return", 30), ("raise", 25), ("cancel", 45)])
     ending: dict[str, Any] = {"kind": ek}
     if ek == "raise":
         ending["exc"] = d.pick(EXCS)
